@@ -15,6 +15,11 @@
                                            (otherwise the pinned code refuses the CDS: F-C05b)
     T1' frame_shift_is_addition_mod3       the generated kernel `CDSFrame.shift`, for every integer shift
         offset_after_cut                   `_calculate_frame_offset`'s  CDSPhase(d % 3).to_frame().value = (−d) mod 3
+    T2  codon_locations_are_reference_codons   `chromosome_codon_locations` / `chunk_relative_codon_locations` /
+                                           `scan_codon_locations()`: every returned Location is well formed, on the
+                                           CDS strand and denotes the k-th triple of `Spec.cdsKept` (C01-T3 composed
+                                           with T1 through `from_single_intervals`, `_calculate_frame_offset`,
+                                           `scan_windows`); `num_codons_is_reference_count`
     T2a fast_path_is_codon_concatenation   `extract_sequence` (fast path) = concatenation of the consecutive letter
                                            triples from the offset on; length multiple of three;
         codon_chunks_of_fast_path          re-chunking it by three (scan_codons / translate) gives those triples back
@@ -27,29 +32,24 @@
     T5a window_offset_selects_inner_codons the window arithmetic: cutting d retained bases at the 5' end and iterating
                                            triples from offset (−d) mod 3 yields exactly the codons lying inside
 
-  Resting on the correspondence run (stated, not proved — see the comments at the end): the composition of T1
-  with `relative_interval_to_parent_location` / `scan_windows` into `okCodons` for the returned Location objects
-  (T2 full), the cached codon path of `extract_sequence`, and T5 in terms of chromosome windows.
+    T2b coding_sequence_is_codon_concatenation   `okCdsSeq`: extract_sequence() of the CDS = concatenation of the
+                                           letters of the reference codons (complemented on the minus strand)
+    T3b protein_is_standard_code_translation     `okTranslate`: translate(trunc, table, strict) of the CDS
+
+  Resting on the correspondence run (stated, not proved — see the comments at the end): the cached codon path of
+  `extract_sequence`, `scan_codons` / `has_*` at the level of the CDS, T5 in terms of chromosome windows
+  (`okCodons … (some window)`), and the general refusal statement for deep trims.
 -/
-import BioCantor.Proofs.CDSKept
+import BioCantor.Proofs.CDSSeq
 import BioCantor.Proofs.CDSConstructFrames
 import BioCantor.Proofs.CDSTranslate
 import BioCantor.Proofs.CDSFastPath
 namespace BioCantor.Props.C05
 open BioCantor BioCantor.Spec BioCantor.Model BioCantor.Proofs
 
-/-- What `CDSInterval.__init__` establishes plus the scope of C05: directional strand, exons of positive length
-    that do not overlap, one real frame (0/1/2) per exon. -/
-structure WFCDS (c : CDS) : Prop where
-  dir : c.loc.strand = .plus ∨ c.loc.strand = .minus
-  valid : blocksValid c.loc.blocks = true
-  nonOverlap : nonOverlap c.loc.blocks = true
-  positive : ∀ b ∈ c.loc.blocks, b.1 < b.2
-  frames_len : c.frames.length = c.loc.blocks.length
-  frames_real : ∀ f ∈ c.frames, f ≠ .NONE
-
-/-- the frame values of the model object, as the spec reads them -/
-def specFrames (c : CDS) : List Nat := c.frames.map (fun f => f.value.toNat)
+-- `WFCDS c` (Proofs/CDSCodons.lean): what `CDSInterval.__init__` establishes plus the scope of C05 — directional
+-- strand, exons of positive length that do not overlap, one real frame (0/1/2) per exon.
+-- `specFrames c` = the frame values, `specOf c` = the spec's view ⟨c.loc, specFrames c, c.seq⟩ of the model object.
 
 /-- **T1'** `CDSFrame.shift` (generated from gene/cds_frame.py) is addition modulo three for EVERY integer shift. -/
 theorem frame_shift_is_addition_mod3 (f : CDSFrame) (hf : f ≠ .NONE) (n : Int) :
@@ -85,6 +85,21 @@ theorem frame_cleaning_is_reference_walk (c : CDS) (h : WFCDS c)
     (by unfold specFrames at hshallow; exact hshallow)
   exact this
 
+/-- **T2** codon locations without a window.  `cdsKept ≠ []` excludes the multi-exon CDS without any retained
+    base, which the pinned code refuses (F-C05c); a single-exon CDS needs no such guard. -/
+theorem codon_locations_are_reference_codons (c : CDS) (h : WFCDS c)
+    (hshallow : shallowTrim (exonWalk c.loc (specFrames c)) = true)
+    (hkept : c.loc.blocks.length = 1 ∨ cdsKept c.loc (specFrames c) ≠ []) :
+    okCodons (specOf c) none (ans (codonLocations c)) = true :=
+  codonLocations_ok c h hshallow hkept
+
+/-- **T2** `num_codons = |refKept| / 3`. -/
+theorem num_codons_is_reference_count (c : CDS) (h : WFCDS c)
+    (hshallow : shallowTrim (exonWalk c.loc (specFrames c)) = true)
+    (hkept : c.loc.blocks.length = 1 ∨ cdsKept c.loc (specFrames c) ≠ []) :
+    okNumCodons (specOf c) (ans (numCodons c)) = true :=
+  numCodons_ok c h hshallow hkept
+
 /-- **T2a** the fast path of `extract_sequence`: with `(location, offset)` prepared by
     `_prepare_*_window_for_scan_codon_locations` and `s` the letters of that location (one per position), the
     result is the concatenation of the consecutive triples of `s` from the offset on — a multiple of three. -/
@@ -97,6 +112,25 @@ theorem fast_path_is_codon_concatenation (c : CDS) (loc : Location) (off : Int) 
 /-- **T2a** `seq[i:i+3] for i in range(0, len(seq), 3)` over the fast-path result returns the codons. -/
 theorem codon_chunks_of_fast_path (s : List Char) : chunks3 (triples s).flatten = triples s :=
   chunks3_flatten_triples s
+
+/-- **T2b** the coding sequence of the CDS is the concatenation of the codon sequences (`SeqOK`: the CDS carries
+    the chromosome letters `chrom`, every exon lies inside them, every letter has a complement). -/
+theorem coding_sequence_is_codon_concatenation (c : CDS) (h : WFCDS c)
+    (hshallow : shallowTrim (exonWalk c.loc (specFrames c)) = true)
+    (hkept : c.loc.blocks.length = 1 ∨ cdsKept c.loc (specFrames c) ≠ [])
+    (chrom : List Char) (hs : SeqOK c chrom) :
+    okCdsSeq (specOf c) (ans (extractSequence c)) = true :=
+  cdsSeq_ok c h hshallow hkept chrom hs
+
+/-- **T3b** the protein of the CDS is the standard-code translation of the reference codons, with the start rule
+    of the table, the `strict` refusal and the truncation (letters: those `Codon` accepts, either case). -/
+theorem protein_is_standard_code_translation (c : CDS) (h : WFCDS c)
+    (hshallow : shallowTrim (exonWalk c.loc (specFrames c)) = true)
+    (hkept : c.loc.blocks.length = 1 ∨ cdsKept c.loc (specFrames c) ≠ [])
+    (chrom : List Char) (hs : SeqOK c chrom) (halpha : ∀ ch ∈ chrom, ch.toUpper ∈ Gen.codonAlphabet)
+    (trunc strict : Bool) (table : Nat) (ht : table = 0 ∨ table = 1 ∨ table = 11) :
+    okTranslate (specOf c) trunc table strict (ans (translate c trunc (table : Int) strict)) = true :=
+  translate_ok c h hshallow hkept chrom hs halpha trunc strict table ht
 
 /-- **T3** the generated `gencode` dictionary is the NCBI standard code, on every string. -/
 theorem gencode_is_ncbi_standard (v : List Char) : Gen.gencode.lookup v = standardCode v :=
@@ -139,22 +173,68 @@ example : CodonOK "ATG".toList ∧ CodonOK "CTN".toList := by
 example : toLoc (.compound ⟨[(0, 5), (7, 11), (12, 18)], .minus⟩) = some ⟨[(0, 5), (7, 11), (12, 18)], .minus⟩ ∧
     (CDSFrame.TWO).value ≤ (firstLen ⟨[(0, 5), (7, 11), (12, 18)], .minus⟩ : Int) := by decide
 
+/-- the example CDS with letters: every hypothesis of T2b / T3b holds -/
+def exampleSeqCDS : CDS := { exampleCDS with seq := some "ACGTNACGTAGCTAGCTRYAcgt".toList }
+example : SeqOK exampleSeqCDS "ACGTNACGTAGCTAGCTRYAcgt".toList := by
+  constructor
+  · rfl
+  · decide
+  · decide
+example : ∀ ch ∈ "ACGTNACGTAGCTAGCTRYAcgt".toList, ch.toUpper ∈ Gen.codonAlphabet := by decide
+
 /-! ### stated, not proved (these clauses rest on the correspondence run of harness/props/c05.py)
 
-  T2 (full) — codon locations.  For `c` with `WFCDS c`, `shallowTrim …`, `cdsKept … ≠ []`:
-      okCodons ⟨c.loc, specFrames c, c.seq⟩ none (ans (codonLocations c)) = true
-    i.e. every returned Location is well formed, on the CDS strand, and denotes the k-th triple of `cdsKept`.
-    Missing: the composition of `frame_cleaning_is_reference_walk` with C01-T3 (`relInterval_ok`) for the cleaned
-    blocks and for every `scan_windows` step (the cleaned location is Canon / NonOverlap, its bases are the
-    concatenated slices, `_calculate_frame_offset` returns 0).
+  `okScanCodons`, `okFirstCodon`, `okHasValidStop`, `okInFrameStop` at the level of the CDS: same route as
+    T2b/T3b (`extractSequence_kept` gives the letters), not written out.
 
-  T2 (cached path) — `extractSequenceCached c = extractSequence c`; needs C03 (sequence of a sub-interval is the
-    slice of the sequence).
+  T2 (cached path) — `extractSequenceCached c = extractSequence c`; needs the letters of every codon location
+    (`locationSeq_letters` applied to the sub-intervals returned by `scan_windows`).
 
   T5 (full) — for a window [lo, hi):
-      okCodons ⟨…⟩ (some ⟨some lo, some hi, false⟩) (ans (scanChromosomeCodonLocations c (some ⟨some lo, some hi, false⟩))) = true
-    outside the catalogued deviation classes (Spec.codonsClass ≠ "unclassified": F-C05a, d, e, f, g).
-    Proved part: `window_offset_selects_inner_codons` + `offset_after_cut`.
+      okCodons (specOf c) (some ⟨some lo, some hi, false⟩)
+        (ans (scanChromosomeCodonLocations c (some ⟨some lo, some hi, false⟩))) = true
+    outside the catalogued deviation classes (Spec.codonsClass: F-C05a, d, e, f, g).
+    Proved part: `window_offset_selects_inner_codons` + `offset_after_cut` + T2 for the cleaned location.
+    Missing: bases of `cleaned_location.intersection(window)` = the kept positions inside the window.
+
+  Deep trim — when `shallowTrim` fails the model, like the code, refuses the CDS (InvalidPosition from
+    `relative_interval_to_parent_location(start > end)`): witness below, general statement by correspondence.
 -/
+
+/-! ### witnesses: the modelled current code deviates at the catalogued inputs (findings/C05.json) -/
+
+/-- F-C05a: one exon [3,30) +, start frame 1, window [4,10): the modelled code returns one codon, the property
+    demands two -/
+def oneExonCDS : CDS := { loc := ⟨[(3, 30)], .plus⟩, start := 3, «end» := 30, frames := [.ONE], seq := none }
+example : ans (scanChromosomeCodonLocations oneExonCDS (some ⟨some 4, some 10, false⟩)) =
+    some [.single (7, 10) .plus] := by decide +kernel
+example : expectCodons (specOf oneExonCDS) (some ⟨some 4, some 10, false⟩) = [[4, 5, 6], [7, 8, 9]] := by
+  decide +kernel
+example : okCodons (specOf oneExonCDS) (some ⟨some 4, some 10, false⟩)
+    (ans (scanChromosomeCodonLocations oneExonCDS (some ⟨some 4, some 10, false⟩))) = false := by decide +kernel
+
+/-- F-C05b: starts [2,8,9] ends [6,9,10] frames [0,1,0] + : the walk needs a deep trim; the modelled code refuses -/
+def deepTrimCDS : CDS :=
+  { loc := ⟨[(2, 6), (8, 9), (9, 10)], .plus⟩, start := 2, «end» := 10, frames := [.ZERO, .ONE, .ZERO], seq := none }
+example : shallowTrim (exonWalk deepTrimCDS.loc (specFrames deepTrimCDS)) = false := by decide
+example : (cdsCodons deepTrimCDS.loc (specFrames deepTrimCDS)) = [[2, 3, 4]] := by decide
+example : ans (codonLocations deepTrimCDS) = none := by decide +kernel
+
+/-- F-C05c: exons [1,2) [2,3) frames [0,2] + : no base survives; the modelled multi-exon path refuses -/
+def emptiedCDS : CDS :=
+  { loc := ⟨[(1, 2), (2, 3)], .plus⟩, start := 1, «end» := 3, frames := [.ZERO, .TWO], seq := none }
+example : cdsKept emptiedCDS.loc (specFrames emptiedCDS) = [] := by decide
+example : ans (numCodons emptiedCDS) = none := by decide +kernel
+
+/-- F-C05d / F-C05e: a zero-length window returns every codon; a window without retained base is refused -/
+def plainCDS : CDS := { loc := ⟨[(1, 4)], .plus⟩, start := 1, «end» := 4, frames := [.ZERO], seq := none }
+example : ans (scanChromosomeCodonLocations plainCDS (some ⟨some 0, some 0, false⟩)) =
+    some [.single (1, 4) .plus] := by decide +kernel
+example : ans (scanChromosomeCodonLocations plainCDS (some ⟨some 5, some 9, false⟩)) = none := by decide +kernel
+
+/-- F-C05h: first block shorter than the start offset -/
+example : ans (constructFramesFromLocation (.compound ⟨[(0, 1), (7, 11)], .plus⟩) .TWO) = some [.TWO, .TWO] := by
+  decide +kernel
+example : okFrames ⟨[(0, 1), (7, 11)], .plus⟩ 2 (some [2, 2]) = false := by decide +kernel
 
 end BioCantor.Props.C05
